@@ -7,6 +7,7 @@ from typing import Optional
 import z3
 
 from .front import ClassInfo, FuncInfo
+from .interp import seq_concat
 from .interp import (BreakSig, ContinueSig, Frame, Interp, PathAbort, RaiseSig, ReturnSig, Unsupported, _m,
                      BUILTIN_EXC_BASES)
 from .tys import (NONE, SV, PyList, PyTuple, Ref, TAbs, TAny, TBool, TDict, TEnum, TInt, TNone, TObj, TOpt, TRec,
@@ -63,7 +64,7 @@ class Evaluator(Interp):
             else:
                 all_const = False
         if all_const:
-            return SV(TStr, z3.Concat(*parts) if len(parts) > 1 else (parts[0] if parts else z3.StringVal("")))
+            return SV(TStr, seq_concat(*parts) if len(parts) > 1 else (parts[0] if parts else z3.StringVal("")))
         return SV(TStr, self.fresh("fstr", z3.StringSort()))
 
     def e_Name(self, node, fr):
@@ -163,6 +164,8 @@ class Evaluator(Interp):
                 if m.kind == "classmethod":
                     return VFunc(m, bound=base)
                 return VFunc(m)
+            if ci.is_model and attr in ("model_validate_json", "model_validate"):
+                return VBuiltin("ext:pydantic." + attr, bound=ci)
             for cq in self.w.mro(ci.qname):
                 c = self.w.get_class(cq)
                 if c is not None and attr in c.class_attrs:
@@ -190,6 +193,8 @@ class Evaluator(Interp):
                 self.raise_exc("AttributeError")
             if isinstance(t, (TObj, TRec)):
                 return self.obj_getattr(base, attr, fr)
+            if t is TAny or (isinstance(t, TObj) and self.w.get_class(t.cls).is_model and attr in ("model_dump_json", "model_dump")):
+                return VBuiltin("ext:pydantic.instance." + attr, bound=base)
             if isinstance(t, TEnum):
                 if attr == "value":
                     return self.cdb.types.enum_value(self, base)
@@ -306,23 +311,24 @@ class Evaluator(Interp):
             if isinstance(op, ast.FloorDiv):
                 if not fr.pure and self.branch(y == 0):
                     self.raise_exc("ZeroDivisionError")
-                # python floor division: z3 div is euclidean; floor for positive divisor
-                return SV(TInt, z3.If(y > 0, x / y, -((-x) / (-y)) if False else z3.If(x % y == 0, x / y, z3.If(y > 0, x / y, (x / y) - 0))))
+                # z3 div is floor for a positive divisor; floor(x/y) == floor((-x)/(-y))
+                return SV(TInt, z3.If(y > 0, x / y, (-x) / (-y)))
             if isinstance(op, ast.Mod):
                 if not fr.pure and self.branch(y == 0):
                     self.raise_exc("ZeroDivisionError")
-                return SV(TInt, z3.If(y > 0, x % y, -((-x) % (-y))))
+                q = z3.If(y > 0, x / y, (-x) / (-y))
+                return SV(TInt, x - y * q)
             if isinstance(op, (ast.BitAnd, ast.BitOr, ast.BitXor)):
                 return self.bitop(op, x, y, fr)
             raise Unsupported(f"int op {type(op).__name__}")
         if isinstance(op, ast.Add):
             if isinstance(a, SV) and a.ty is TStr and isinstance(b, SV) and b.ty is TStr:
-                return SV(TStr, z3.Concat(a.term, b.term))
+                return SV(TStr, seq_concat(a.term, b.term))
             if isinstance(a, (PyList, PyTuple)) and isinstance(b, (PyList, PyTuple)) and type(a) is type(b):
                 return type(a)(a.items + b.items)
             if self.is_seq(a) or self.is_seq(b):
                 sa, sb = self.two_seqs(a, b)
-                return SV(sa.ty, z3.Concat(sa.term, sb.term))
+                return SV(sa.ty, seq_concat(sa.term, sb.term))
         if isinstance(op, ast.Mult):
             # ["0"] * n
             if self.is_seq(a) and isinstance(b, SV) and b.ty in num:
@@ -336,8 +342,25 @@ class Evaluator(Interp):
         raise Unsupported(f"binop {type(op).__name__} on {a}, {b}")
 
     def bitop(self, op, x, y, fr):
-        # bit operations on small non-negative ints via 16-bit vectors (range obligations)
+        """Bit operations on non-negative ints.  With one constant operand (< 2**16) the result is
+        written with div/mod by powers of two (linear arithmetic); otherwise 16-bit vectors."""
         W = 16
+        xs, ys = z3.simplify(x), z3.simplify(y)
+        if z3.is_int_value(xs) and not z3.is_int_value(ys):
+            x, y, xs, ys = y, x, ys, xs
+        if z3.is_int_value(ys) and 0 <= ys.as_long() < 2 ** W:
+            m = ys.as_long()
+            if not fr.pure:
+                self.oblige("bitop-nonneg", x >= 0, "safety", site=("bitop", m))
+            bits = [b for b in range(W) if (m >> b) & 1]
+
+            def bit(b):
+                return (x / (2 ** b)) % 2
+            if isinstance(op, ast.BitAnd):
+                return SV(TInt, z3.Sum([bit(b) * (2 ** b) for b in bits]) if bits else z3.IntVal(0))
+            if isinstance(op, ast.BitOr):
+                return SV(TInt, x + (z3.Sum([(1 - bit(b)) * (2 ** b) for b in bits]) if bits else z3.IntVal(0)))
+            return SV(TInt, x + (z3.Sum([(1 - 2 * bit(b)) * (2 ** b) for b in bits]) if bits else z3.IntVal(0)))
         if not fr.pure:
             self.oblige("bitop-range", z3.And(x >= 0, x < 2 ** W, y >= 0, y < 2 ** W), "safety", site=("bitop",))
         bx, by = z3.Int2BV(x, W), z3.Int2BV(y, W)
@@ -502,6 +525,8 @@ class Evaluator(Interp):
                 return SV(TInt, z3.If(c, self.coerce(a, TInt).term, self.coerce(b, TInt).term))
             if isinstance(a.ty, TObj) and isinstance(b.ty, TObj):
                 return SV(TObj(self.cdb.types.common_base(a.ty.cls, b.ty.cls)), z3.If(c, a.term, b.term))
+            if isinstance(a.ty, TSeq) and isinstance(b.ty, TSeq) and a.ty.elem == b.ty.elem:
+                return SV(a.ty, z3.If(c, a.term, b.term))
         if isinstance(a, (PyList, PyTuple)) or isinstance(b, (PyList, PyTuple)):
             if isinstance(a, SV) and isinstance(a.ty, TSeq):
                 return SV(a.ty, z3.If(c, a.term, self.coerce(b, a.ty).term))
@@ -561,7 +586,7 @@ class Evaluator(Interp):
             else:
                 for x in p:
                     terms.append(z3.Unit(self.coerce(x, ety).term))
-        t = terms[0] if len(terms) == 1 else z3.Concat(*terms)
+        t = terms[0] if len(terms) == 1 else seq_concat(*terms)
         return None, SV(sty, t)
 
     def e_Set(self, node, fr):
@@ -1048,7 +1073,7 @@ class Evaluator(Interp):
             if self.branch(i < 0):
                 i = i + ln
             e = self.coerce(v, base.ty.elem).term
-            new = z3.Concat(z3.SubSeq(base.term, 0, i), z3.Unit(e), z3.SubSeq(base.term, i + 1, ln - i - 1))
+            new = seq_concat(z3.SubSeq(base.term, 0, i), z3.Unit(e), z3.SubSeq(base.term, i + 1, ln - i - 1))
             return SV(base.ty, new)
         raise Unsupported(f"subscript store on {base}")
 
